@@ -22,10 +22,10 @@ CHECKS = {
          "The reference model is written from the property / README / docstrings (section 2.1); single thread; valid arguments.", "4 C05"),
  "C06": ("exploration", PBT + ": generated (content, algorithm, spelling, checksum form, size form, prior state, entry point); verdict recomputed independently",
          "Generated-input search against an independently computed verdict.", "ObjectMetadata passed to delete_if_invalid_object is the one the store returned.", "4 C06"),
- "C07": ("exploration", PBT + " over owned thread schedules: generated/enumerated 2-3 call programs x every single (quick) / double (thorough) preemption at file-system and lock boundaries; implementation-relative linearizability oracle",
-         "Systematic schedule exploration with an owned cooperative scheduler (every preemption point of every conflicting pair, bounded by preemption count) plus generated 3-thread schedules; the oracle is the set of outcomes of all sequential orders on copies of the start state.",
-         "Schedules are explored at file-system-call / lock-operation granularity with sequentially consistent steps; <=3 threads, <=2 preemptions exhaustively; known findings are excluded by signature.", "4 C07"),
- "C08": ("exploration", PBT + " over owned schedules and injected faults: structural deadlock detection, lock-list emptiness, follow-up calls",
+ "C07": ("exploration", PBT + " over owned thread schedules: generated/enumerated 2-3 call programs x every single (quick) / double (thorough) preemption at file-system and lock boundaries, conflict-directed enumeration (<=3 preemptions up to commutation of independent steps, thorough), constructed 3-thread shapes (holder/waiter/passer-by, holder/second/third, hand-over), two store instances on one shared reference list; implementation-relative linearizability oracle",
+         "Systematic schedule exploration with an owned cooperative scheduler (every preemption point of every conflicting pair, bounded by preemption count; conflict-directed reduction for the deeper bound) plus generated 3-thread schedules; the oracle is the set of outcomes of all sequential orders on copies of the start state.",
+         "Schedules are explored at file-system-call / lock-operation granularity with sequentially consistent steps; <=3 threads, <=2 preemptions exhaustively (<=3 conflict-directed); waits with a timeout are modelled as expiring; known findings are excluded by signature.", "4 C07"),
+ "C08": ("exploration", PBT + " over owned schedules and injected faults (one-off, persistent, disk-full, late = effect-then-error): structural deadlock detection, lock-list emptiness, follow-up calls; constructed 4-thread shapes (two holders + two waiters, wake chain)",
          "Same executions as C07/C12 (+4-thread generated programs) and every fault site of C13, judged by: no execution ends with a blocked thread, no identifier left locked, follow-up calls complete.",
          "Liveness is decided as a safety statement over owned schedules (no explored execution ends blocked); unbounded unfair schedules are out of reach.", "4 C08"),
  "C09": ("fault_enumeration", PBT + ": every file-system boundary of generated calls is an observation point (what a concurrent reader or a post-crash inspector sees); per-address absent<->complete state machine",
@@ -36,10 +36,10 @@ CHECKS = {
          "Process death on a POSIX local file system (rename atomic, page cache coherent); power loss / fsync ordering out of scope.", "4 C10"),
  "C11": ("exploration", PBT + ": generated metadata histories over colliding (pid, format) pairs and equal-length documents; map model + tree equality via independent path computation",
          "Stateful generated histories against a document-map model after every call.", "Single thread; format ids non-empty without whitespace.", "4 C11"),
- "C12": ("exploration", PBT + " over owned thread schedules of metadata calls (<=2 preemptions exhaustive in quick); linearizability oracle with the reader widening stated in the property",
+ "C12": ("exploration", PBT + " over owned thread schedules of metadata calls (<=2 preemptions exhaustive in quick); linearizability oracle with the reader widening stated in the property; calls on different documents through one and two instances must commute",
          "Systematic schedule exploration of 2-3 call metadata programs on one pid; oracle = sequential permutations on copies.",
          "As C07; a reader may additionally see any not-found error.", "4 C12"),
- "C13": ("fault_enumeration", PBT + ": every fault site (mutating op / open) x errno x {one-off, sticky} of generated scenarios; raise-or-whole-effect, retry and bystander oracles",
+ "C13": ("fault_enumeration", PBT + ": every fault site (mutating op / open) x errno x {one-off, sticky} of generated scenarios, plus a faulted call next to a concurrent clean call (fault site x conflict-directed single preemption); raise-or-whole-effect, retry and bystander oracles",
          "Fault sites of each generated scenario are enumerated completely with EIO (quick) / EIO, ENOSPC, EACCES (thorough), one-off and persistent-for-destination.",
          "Faults are injected at the Python/OS boundary as OSError; stat-class probes are not sites (as the property states).", "4 C13"),
  "C14": ("exploration", PBT + ": generated (creation cfg, reopen cfg) near-miss pairs x encodings x key sets x path states; accept <=> equal, refused => parent-directory snapshot identical",
